@@ -7,7 +7,7 @@ import GmqttVerif.Model.Codec.Props
   `io.ReadFull`), so by construction it cannot look past the declared packet length.
   `[]byte` fields that `Unpack` always assigns are `Bytes`; fields that stay `nil` when absent are `Option Bytes`.
 
-  FIXED CODE is modelled for
+  The model mirrors the tree after these fixes (all committed in /repo, see findings/c06-*.md):
     F23  `Connect.Pack` wrote the protocol-name length as the constant `00 04`        → `writeBin protoName`
     F25  password read with `readUTF8String(true, …)`                                  → binary
     F26  zero-length topic name accepted without a topic alias                         → ErrProtocol
